@@ -411,7 +411,10 @@ class TestCase:  # noqa: PLR0904
             True if all references are satisfiable, False if the statement must
             be dropped.
         """
-        for name in stmt.used_variables():
+        # Iterate in a deterministic order: ``used_variables`` is a frozenset of
+        # strings, whose iteration order depends on the interpreter's hash seed,
+        # and the loop body draws from the random-number generator.
+        for name in sorted(stmt.used_variables()):
             if name in dropped:
                 return False
             if name in rename:
